@@ -364,6 +364,9 @@ def compile_file(file, table):
 
 def compile_api(api):
     """-> (all FileDescriptorProtos in dependency order, names of target files)."""
+    names_ = [f["name"] for f in api["files"]]
+    if len(set(names_)) != len(names_):
+        raise ValueError(f"model error: two files of one request share a name: {sorted(names_)}")
     table = symbol_table(api)
     targets = [compile_file(f, table) for f in api["files"]]
     target_names = [t.name for t in targets]
